@@ -1034,6 +1034,17 @@ class Sim:
                     self.exclude('death-reaped-before-ack')
                     while p.outbox:
                         self.deliver(p)
+        if not self.allowed('imap-loss'):
+            # zone of the open findings D4/D13: the death of a worker is noticed
+            # while a result of an imap part it had finished is still in flight
+            for p in pool._pool:
+                if not p.alive and any(
+                        m[0] != DEATH and getattr(self.by_jobid.get(m[1][0]),
+                                                  'kind', '') in
+                        ('imap', 'imap_unordered') for m in p.outbox):
+                    self.exclude('imap-part-owner-dies')
+                    while p.outbox:
+                        self.deliver(p)
         before_pids = set(p.pid for p in pool._pool)
         self.tick_started = self.procs_started
         # exits in the order _join_exited_workers will reap them
